@@ -47,19 +47,54 @@ func EvalSrcTraced(src string, timeout time.Duration) (EvalOut, goTrace) {
 // c01TraceCheck compares the real dispatch trace with the reply of `C01 vmtrace`:
 // outcome(3 fields) TAB count TAB entries.  Returns the model's outcome part.
 func c01TraceCheck(e *Env, src string, goOut string, gt goTrace, reply string) string {
+	out, diff := c01TraceCompare(goOut, gt, reply)
+	switch {
+	case diff == "skip":
+		e.R.H("vm_trace", "skipped")
+	case diff == "outcome":
+		e.R.H("vm_trace", "outcome-differs") // reported by the outcome comparison
+	case diff == "":
+		e.R.H("vm_trace", "agrees")
+		switch {
+		case gt.n < 50:
+			e.R.H("vm_trace_len", "<50")
+		case gt.n < 500:
+			e.R.H("vm_trace_len", "50-499")
+		case gt.n < c01TraceCap:
+			e.R.H("vm_trace_len", "500-3999")
+		default:
+			e.R.H("vm_trace_len", ">=4000 (first 4000 compared, and the count)")
+		}
+	default:
+		e.R.H("vm_trace", "differs")
+		f := strings.SplitN(diff, "\x00", 2)
+		e.R.Mismatch(src, f[0], f[1], "dispatch trace of vm.eval (hook vm.VerifTrace: code:ip:height) vs C01.runVMTrace")
+	}
+	return out
+}
+
+// c01TraceShrunk re-evaluates a program (real VM with the hook, Lean model) and reports whether
+// the dispatch traces differ while the outcomes agree: the predicate for shrinking.
+func c01TraceDiffers(e *Env, p *N) bool {
+	src := Src(p)
+	out, tr := EvalSrcTraced(src, 5*time.Second)
+	_, diff := c01TraceCompare(goOutcome(out), tr, e.O.Ask("C01", "vmtrace", Sexp(p), c01Globals))
+	return diff != "" && diff != "skip" && diff != "outcome"
+}
+
+// c01TraceCompare returns the model's outcome part and "" (same trace), "skip", "outcome", or
+// "<go side>\x00<model side>" describing the first difference.
+func c01TraceCompare(goOut string, gt goTrace, reply string) (string, string) {
 	f := strings.Split(reply, "\t")
 	if len(f) < 5 {
-		return reply
+		return reply, "skip"
 	}
 	outcome := strings.Join(f[:3], "\t")
 	if f[0] == "unsupported" || f[0] == "oof" || f[0] == "error" {
-		e.R.H("vm_trace", "skipped:"+f[0])
-		return outcome
+		return outcome, "skip"
 	}
 	if outcome != goOut {
-		// reported by the outcome comparison; the traces necessarily differ too
-		e.R.H("vm_trace", "outcome-differs")
-		return outcome
+		return outcome, "outcome"
 	}
 	var model []string
 	if f[4] != "-" {
@@ -73,18 +108,7 @@ func c01TraceCheck(e *Env, src string, goOut string, gt goTrace, reply string) s
 		}
 	}
 	if first < 0 && fmt.Sprint(gt.n) == f[3] {
-		e.R.H("vm_trace", "agrees")
-		switch {
-		case gt.n < 50:
-			e.R.H("vm_trace_len", "<50")
-		case gt.n < 500:
-			e.R.H("vm_trace_len", "50-499")
-		case gt.n < c01TraceCap:
-			e.R.H("vm_trace_len", "500-3999")
-		default:
-			e.R.H("vm_trace_len", ">=4000 (first 4000 compared, and the count)")
-		}
-		return outcome
+		return outcome, ""
 	}
 	at := func(xs []string, i int) string {
 		if i >= 0 && i < len(xs) {
@@ -92,13 +116,9 @@ func c01TraceCheck(e *Env, src string, goOut string, gt goTrace, reply string) s
 		}
 		return "(end)"
 	}
-	e.R.H("vm_trace", "differs")
-	what := "dispatch trace of vm.eval (hook vm.VerifTrace: code:ip:height) vs C01.runVMTrace"
 	if first < 0 {
-		e.R.Mismatch(src, fmt.Sprintf("%d instructions dispatched", gt.n), f[3]+" instructions dispatched", what)
-	} else {
-		e.R.Mismatch(src, fmt.Sprintf("instruction #%d is %s (after %s)", first, at(gt.shown, first), at(gt.shown, first-1)),
-			fmt.Sprintf("instruction #%d is %s", first, at(model, first)), what)
+		return outcome, fmt.Sprintf("%d instructions dispatched", gt.n) + "\x00" + f[3] + " instructions dispatched"
 	}
-	return outcome
+	return outcome, fmt.Sprintf("instruction #%d is %s (after %s)", first, at(gt.shown, first), at(gt.shown, first-1)) + "\x00" +
+		fmt.Sprintf("instruction #%d is %s", first, at(model, first))
 }
